@@ -197,6 +197,21 @@ fn gen_weights<F: Fl>(rng: &mut Rng, n: usize, class: usize) -> Vec<F> {
     v.into_iter().map(F::of).collect()
 }
 
+/// weights of mixed sign for the sum-type routines, often summing exactly to zero (difference stencils, contrasts)
+fn gen_signed_weights<F: Fl>(rng: &mut Rng, n: usize) -> Vec<F> {
+    let mut w: Vec<f64> = match rng.below(3) {
+        0 => (0..n).map(|i| [1.0, -2.0, 1.0][i % 3]).collect(),
+        1 => (0..n).map(|i| if i % 2 == 0 { 1.0 } else { -1.0 }).collect(),
+        _ => (0..n).map(|_| rng.range(-4, 4) as f64 * 0.5).collect(),
+    };
+    if rng.chance(0.6) {
+        // force an exact zero total
+        let s: f64 = w.iter().sum();
+        w[n - 1] -= s;
+    }
+    w.into_iter().map(F::of).collect()
+}
+
 fn gen_shape_axis(rng: &mut Rng, block_sizes: bool) -> (Vec<usize>, usize) {
     let nd = *rng.pick(&[1usize, 1, 2, 2, 3, 3, 4, 5]);
     let axis = rng.below(nd);
@@ -280,6 +295,32 @@ fn summary_case<F: Fl>(rng: &mut Rng, acc: &mut Acc, prop: &str) {
         rec(acc, "weighted_sum", ty, format!("{},\"x\":{},\"w\":{},\"r\":{}", meta, xs, hexes(&wfull), res_json(&r)));
         let r = catch(|| v.weighted_mean(&w));
         rec(acc, "weighted_mean", ty, format!("{},\"x\":{},\"w\":{},\"r\":{}", meta, xs, hexes(&wfull), res_json(&r)));
+        // weights of mixed sign (total often exactly zero): only the sum-type routines are defined for them
+        if rng.chance(0.3) {
+            let ws = gen_signed_weights::<F>(rng, n);
+            let ws1 = gen_signed_weights::<F>(rng, shape[axis]);
+            let es = Embedded::new(&shape, &ws, lw.clone());
+            let es1 = Embedded::new(&[shape[axis]], &ws1, lw1.clone());
+            let v = v.view(); // reborrow with the lifetime of the local weight arrays (`weights: &Self`)
+            let r = catch(|| v.weighted_sum(&es.view()));
+            rec(acc, "weighted_sum", ty, format!("{},\"x\":{},\"w\":{},\"r\":{}", meta, xs, hexes(&ws), res_json(&r)));
+            let wv1 = es1.view().into_dimensionality::<Ix1>().unwrap();
+            let rs = catch(|| v.weighted_sum_axis(Axis(axis), &wv1));
+            for (li, l) in lanes.iter().enumerate() {
+                let lane: Vec<F> = l.iter().map(|&i| data[i]).collect();
+                let idx = unravel(li, &rem);
+                let got: Result<Result<F, String>, String> = match &rs {
+                    Ok(Ok(a)) if a.shape() == &rem[..] => Ok(Ok(a[IxDyn(&idx)])),
+                    Ok(Ok(a)) => Ok(Err(format!("shape {:?}", a.shape()))),
+                    Ok(Err(e)) => Ok(Err(format!("{:?}", e))),
+                    Err(m) => Err(m.clone()),
+                };
+                let lv = lane_view(&v, axis, &idx);
+                let r3 = catch(|| lv.weighted_sum(&wv1));
+                rec(acc, "weighted_sum_axis", ty, format!("{},\"lane\":{},\"x\":{},\"w\":{},\"r\":{},\"r3\":{}", meta, li, hexes(&lane), hexes(&ws1), res_json(&got), res_json(&r3)));
+            }
+            acc.count("signed_weight_cases");
+        }
         // positive data for harmonic / geometric (harmonic also on mixed-sign data without zeros)
         let pos: Vec<F> = gen_positive::<F>(rng, n);
         let ep = Embedded::new(&shape, &pos, ld.clone());
@@ -517,8 +558,20 @@ macro_rules! int_means {
             let wl = (lim as f64).sqrt() as i64;
             let data: Vec<$t> = (0..n).map(|_| rng.range(-wl.min(lim), wl.min(lim)) as $t).collect();
             let big: Vec<$t> = (0..n).map(|_| rng.range(-lim, lim) as $t).collect();
-            let wfull: Vec<$t> = (0..n).map(|_| rng.range(0, wl.max(1)) as $t).collect();
-            let waxis: Vec<$t> = (0..shape[axis]).map(|_| rng.range(0, wl.max(1)) as $t).collect();
+            // a third of the cases: weights of mixed sign (stencils / contrasts, total possibly zero)
+            let signed = rng.chance(0.33);
+            let wlo = if signed { -wl.max(1) } else { 0 };
+            let mut wfull: Vec<$t> = (0..n).map(|_| rng.range(wlo, wl.max(1)) as $t).collect();
+            let mut waxis: Vec<$t> = (0..shape[axis]).map(|_| rng.range(wlo.max(-3), wl.max(1).min(3)) as $t).collect();
+            if signed && rng.chance(0.5) {
+                let s: i128 = waxis.iter().map(|&w| w as i128).sum();
+                let last = waxis.len() - 1;
+                waxis[last] = (waxis[last] as i128 - s) as $t;
+                let s: i128 = wfull.iter().map(|&w| w as i128).sum();
+                if s.abs() < 1000 {
+                    wfull[n - 1] = (wfull[n - 1] as i128 - s) as $t;
+                }
+            }
             let (ld, lw, lw1) = (rlay(rng, nd), rlay(rng, nd), rlay(rng, 1));
             let ed = Embedded::new(&shape, &data, ld.clone());
             let eb = Embedded::new(&shape, &big, ld.clone());
@@ -648,6 +701,30 @@ fn cov_case<F: Fl>(rng: &mut Rng, acc: &mut Acc) {
             data[no + k] = F::of(a * data[k].to_f64().unwrap() + b);
         }
         acc.count("exactly_collinear_pairs");
+    }
+    // integer-valued matrices whose TOTAL sum is exactly zero although the variable means are not (pairs x, -x + small)
+    if nv >= 2 && rng.chance(0.1) {
+        for k in 0..no {
+            let x = rng.range(-30, 30) as f64 + *rng.pick(&[0.0, 0.5, 0.25]);
+            data[k] = F::of(x + 2.5);
+            data[no + k] = F::of(-x - 2.5);
+        }
+        for i in 2..nv {
+            // remaining variables: antisymmetric in the observation index, so each sums to zero
+            for k in 0..no {
+                let v = rng.range(1, 20) as f64;
+                data[i * no + k] = F::of(if k < no / 2 { v } else if k >= no - no / 2 { 0.0 } else { 0.0 });
+            }
+            for k in 0..no / 2 {
+                let v = data[i * no + k];
+                data[i * no + (no - 1 - k)] = -v;
+            }
+            if (0..no).all(|k| data[i * no + k] == data[i * no]) {
+                data[i * no] = F::of(3.0);
+                data[i * no + no - 1] = F::of(-3.0);
+            }
+        }
+        acc.count("zero_total_sum_matrices");
     }
     // a quarter of the matrices are rescaled per variable by 10^s (finite data of very large / very small
     // magnitude: products of two variances leave the exponent range long before the data or the covariances do)
@@ -792,19 +869,27 @@ fn dev_float_case<F: Fl>(rng: &mut Rng, acc: &mut Acc) {
     let own = rng.below(5);
     acc.count(&format!("ownership_{}", ["view_view", "owned_view", "arc_view", "cow_owned", "viewmut_arc"][own]));
     macro_rules! all_ops {
-        ($x:expr, $y:expr) => {{
+        ($x:expr, $y:expr) => {
+            all_ops!($x, $y, &a, &b, n, &meta, &shape)
+        };
+        ($x:expr, $y:expr, $a:expr, $b:expr, $n:expr, $meta:expr, $shape:expr) => {{
             let x = $x;
             let y = $y;
+            let a: &Vec<F> = $a;
+            let b: &Vec<F> = $b;
+            let n: usize = $n;
+            let meta: &String = $meta;
+            let shape: &Vec<usize> = $shape;
             let r = catch(|| x.count_eq(y));
             let ce = r.clone();
             let r2 = catch(|| x.count_neq(y));
             // counts judged here (exact)
             acc.eval();
-            let want = a.iter().zip(&b).filter(|(p, q)| p == q).count();
+            let want = a.iter().zip(b.iter()).filter(|(p, q)| p == q).count();
             match (&ce, &r2) {
                 (Ok(Ok(c)), Ok(Ok(d))) if *c == want && c + d == n => {}
                 other => {
-                    acc.violation("counts", None, J::obj(vec![("what", J::s(format!("count_eq/count_neq = {:?}, expected {} equal of {}", other, want, n))), ("ty", J::s(F::TY)), ("shape", J::us(&shape))]));
+                    acc.violation("counts", None, J::obj(vec![("what", J::s(format!("count_eq/count_neq = {:?}, expected {} equal of {}", other, want, n))), ("ty", J::s(F::TY)), ("shape", J::us(shape))]));
                 }
             }
             // an array compared with itself (same buffer, same strides): NaN positions still do not count
@@ -813,10 +898,10 @@ fn dev_float_case<F: Fl>(rng: &mut Rng, acc: &mut Acc) {
             match catch(|| (x.count_eq(x), x.count_neq(x))) {
                 Ok((Ok(c), Ok(d))) if c == want_self && c + d == n => {}
                 other => {
-                    acc.violation("counts", None, J::obj(vec![("what", J::s(format!("count_eq/count_neq of an array with itself = {:?}, expected {} equal of {} ({} NaN)", other, want_self, n, n - want_self))), ("ty", J::s(F::TY)), ("shape", J::us(&shape))]));
+                    acc.violation("counts", None, J::obj(vec![("what", J::s(format!("count_eq/count_neq of an array with itself = {:?}, expected {} equal of {} ({} NaN)", other, want_self, n, n - want_self))), ("ty", J::s(F::TY)), ("shape", J::us(shape))]));
                 }
             }
-            let fields = |r: String| format!("{},\"a\":{},\"b\":{},\"r\":{}", meta, hexes(&a), hexes(&b), r);
+            let fields = |r: String| format!("{},\"a\":{},\"b\":{},\"r\":{}", meta, hexes(a), hexes(b), r);
             rec(acc, "sq_l2_dist", F::TY, fields(res_json(&catch(|| x.sq_l2_dist(y)))));
             rec(acc, "l1_dist", F::TY, fields(res_json(&catch(|| x.l1_dist(y)))));
             rec(acc, "linf_dist", F::TY, fields(res_json(&catch(|| x.linf_dist(y)))));
@@ -831,10 +916,36 @@ fn dev_float_case<F: Fl>(rng: &mut Rng, acc: &mut Acc) {
             rec(acc, "root_mean_sq_err", F::TY, format!("{}{},\"r\":{}", meta, base, d64(catch(|| x.root_mean_sq_err(y)))));
             rec(acc, "peak_signal_to_noise_ratio", F::TY, format!("{}{},\"r\":{}", meta, base, d64(catch(|| x.peak_signal_to_noise_ratio(y, maxv)))));
             // symmetry: swapped operands
-            rec(acc, "sym_sq_l2_dist", F::TY, format!("{},\"a\":{},\"b\":{},\"r\":{},\"r2\":{}", meta, hexes(&a), hexes(&b), res_json(&catch(|| x.sq_l2_dist(y))), res_json(&catch(|| y.sq_l2_dist(x)))));
-            rec(acc, "sym_l1_dist", F::TY, format!("{},\"a\":{},\"b\":{},\"r\":{},\"r2\":{}", meta, hexes(&a), hexes(&b), res_json(&catch(|| x.l1_dist(y))), res_json(&catch(|| y.l1_dist(x)))));
-            rec(acc, "sym_linf_dist", F::TY, format!("{},\"a\":{},\"b\":{},\"r\":{},\"r2\":{}", meta, hexes(&a), hexes(&b), res_json(&catch(|| x.linf_dist(y))), res_json(&catch(|| y.linf_dist(x)))));
+            rec(acc, "sym_sq_l2_dist", F::TY, format!("{},\"a\":{},\"b\":{},\"r\":{},\"r2\":{}", meta, hexes(a), hexes(b), res_json(&catch(|| x.sq_l2_dist(y))), res_json(&catch(|| y.sq_l2_dist(x)))));
+            rec(acc, "sym_l1_dist", F::TY, format!("{},\"a\":{},\"b\":{},\"r\":{},\"r2\":{}", meta, hexes(a), hexes(b), res_json(&catch(|| x.l1_dist(y))), res_json(&catch(|| y.l1_dist(x)))));
+            rec(acc, "sym_linf_dist", F::TY, format!("{},\"a\":{},\"b\":{},\"r\":{},\"r2\":{}", meta, hexes(a), hexes(b), res_json(&catch(|| x.linf_dist(y))), res_json(&catch(|| y.linf_dist(x)))));
         }};
+    }
+    if rng.chance(0.08) {
+        // both operands are views of ONE buffer that start at the same element but pair different elements:
+        // 1-D prefix vs every-other element, or a square matrix vs its transpose
+        acc.count("aliased_operand_pairs");
+        if rng.chance(0.5) || n < 4 {
+            let base: Array1<F> = (0..2 * n + 1).map(|i| a[i % n] + F::of((i / n) as f64 * 0.5)).collect();
+            let xa = base.slice(ndarray::s![..n]);
+            let ya = base.slice(ndarray::s![..2 * n;2]);
+            let (a, b): (Vec<F>, Vec<F>) = (xa.to_vec(), ya.to_vec());
+            let shape = vec![n];
+            let meta = format!(",\"shape\":{:?},\"lay\":\"aliased prefix / stepped\"", shape);
+            all_ops!(&xa.into_dyn(), &ya.into_dyn(), &a, &b, n, &meta, &shape);
+        } else {
+            let m = (n as f64).sqrt().floor() as usize;
+            let m = m.max(2);
+            let sq: Array2<F> = Array2::from_shape_vec((m, m), (0..m * m).map(|i| a[i % n] + F::of(i as f64 * 0.25)).collect()).unwrap();
+            let xa = sq.view();
+            let ya = sq.t();
+            let (a, b): (Vec<F>, Vec<F>) = (xa.iter().cloned().collect(), ya.iter().cloned().collect());
+            let n = m * m;
+            let shape = vec![m, m];
+            let meta = format!(",\"shape\":{:?},\"lay\":\"aliased matrix / transpose\"", shape);
+            all_ops!(&xa.into_dyn(), &ya.into_dyn(), &a, &b, n, &meta, &shape);
+        }
+        return;
     }
     match own {
         0 => all_ops!(&ea.view(), &eb.view()),
@@ -1131,6 +1242,19 @@ fn entropy_case<F: Fl>(rng: &mut Rng, acc: &mut Acc) {
     let meta = format!(",\"shape\":{:?},\"lay\":\"{}/{}\",\"normalised\":{}", shape, lp.class(), lq.class(), normalise);
     acc.count(&format!("layout_pair_{}_{}", lp.class(), lq.class()));
     acc.count(&format!("nan_mode_{}", nan_mode.min(3)));
+    if rng.chance(0.06) && n >= 2 {
+        // p and q are views of one buffer starting at the same element (prefix vs every other element)
+        let base: Array1<F> = (0..2 * n).map(|i| pf[i % n]).collect();
+        let pa = base.slice(ndarray::s![..n]);
+        let qa = base.slice(ndarray::s![..2 * n;2]);
+        let (pv, qv): (Vec<F>, Vec<F>) = (pa.to_vec(), qa.to_vec());
+        let m2 = format!(",\"shape\":[{}],\"lay\":\"aliased prefix / stepped\",\"normalised\":false", n);
+        let rk = catch(|| pa.kl_divergence(&qa));
+        rec(acc, "kl_divergence", F::TY, format!("{},\"p\":{},\"q\":{},\"r\":{}", m2, hexes(&pv), hexes(&qv), res_json(&rk)));
+        let rc = catch(|| pa.cross_entropy(&qa));
+        rec(acc, "cross_entropy", F::TY, format!("{},\"p\":{},\"q\":{},\"r\":{}", m2, hexes(&pv), hexes(&qv), res_json(&rc)));
+        acc.count("aliased_operand_pairs");
+    }
     let rh = catch(|| vp.entropy());
     rec(acc, "entropy", F::TY, format!("{},\"p\":{},\"r\":{}", meta, hexes(&pf), res_json(&rh)));
     // q as an owned array half of the time (different storage type than p)
